@@ -75,4 +75,20 @@ def mapM {α β ε : Type} (f : α → Except ε β) : List α → Except ε (Li
       | .error e => .error e
       | .ok ys => .ok (y :: ys)
 
+/-! ### additions for tools/translate/pytr/objfn.py (builder trc) — additive block -/
+
+/-- a value that is an int or the constant `...` (Ellipsis) -/
+inductive EllInt where
+  | ellipsis
+  | int (n : Int)
+  deriving DecidableEq, Repr, Inhabited
+
+/-- the int in an ordering comparison `x > n` where `x` may be None: `TypeError` for None -/
+def intOfOpt (x : Option Int) : Except Py.Exc Int :=
+  match x with
+  | some n => .ok n
+  | none => .error .TypeError
+
+/-! ### end of the additions for pytr/objfn.py -/
+
 end I18n.PyKit
